@@ -263,7 +263,7 @@ func (m *MonTxIntegrity) AfterStep(nw *Network) {
 		m.processed[app] = len(app.Delivered)
 
 		// conservation: submitted(X) == pool(X) (+) payload(own events of X)
-		if m.StrictPool && n.Up && !m.lost[n.Idx] && !n.StoreClosed {
+		if m.StrictPool && n.Up && !m.lost[n.Idx] && !n.StoreClosed && !n.SelfInsertFaulted {
 			nk := [2]int{n.Idx, n.Incarnation}
 			sub := nw.Rec.SubmittedBy[nk]
 			pool := n.Core.TransactionPool()
@@ -354,7 +354,7 @@ func (m *MonTxIntegrity) Finish(nw *Network) {
 		mustHave := 0
 		for k, c := range st.ByNode {
 			sn := nw.Nodes[k[0]]
-			if sn.babbling() && !m.lost[sn.Idx] && k[1] == sn.Incarnation {
+			if sn.babbling() && !m.lost[sn.Idx] && k[1] == sn.Incarnation && !sn.SelfInsertFaulted {
 				mustHave += c
 			}
 		}
@@ -393,6 +393,12 @@ type MonValidators struct {
 	// IncludeReset extends the check to fast-forwarded nodes (C13)
 	IncludeReset bool
 	Prop         string
+	// Outsiders: for every block a full-history node delivers, a valid
+	// signature over the node's own body of that block by every identity of the
+	// network that is NOT in the replayed validator set of the block's round
+	// (validators that left before, that join later, joiners not yet effective)
+	// is put into the node's signature pool: it must never be recorded.
+	Outsiders bool
 }
 
 func NewMonValidators() *MonValidators {
@@ -497,6 +503,11 @@ func (m *MonValidators) AfterStep(nw *Network) {
 					nw.violate(m.Prop, m.Prop+":peers-hash-mismatch",
 						fmt.Sprintf("node %d: block %d carries a peer-set hash that is not the hash of the validator set the node reports for round %d", n.Idx, d.Index, d.Body.RoundReceived),
 						map[string]interface{}{"node": n.Idx, "block": describeDelivered(d)})
+					return
+				}
+			}
+			if m.Outsiders && n.ResetEpochs == 0 && n.babbling() {
+				if m.offerOutsiderSignatures(nw, n, s, d) {
 					return
 				}
 			}
@@ -713,4 +724,59 @@ func traceTx(nw *Network, n *SimNode, tx []byte) map[string]interface{} {
 		}
 	}
 	return out
+}
+
+// offerOutsiderSignatures: see MonValidators.Outsiders. Returns true when a
+// violation was reported.
+func (m *MonValidators) offerOutsiderSignatures(nw *Network, n *SimNode, s *valState, d *Delivered) bool {
+	st := n.Core.Hg().Store
+	blk, err := st.GetBlock(d.Index)
+	if err != nil {
+		return false
+	}
+	members := s.at(d.Body.RoundReceived)
+	for _, o := range nw.Nodes {
+		if o.Key == nil || members[o.PubHex] {
+			continue
+		}
+		// only identities that are, were or will be validators are interesting:
+		// they are in the repertoire, so their events and signatures are not
+		// refused for being unknown
+		known := false
+		for _, set := range s.sets {
+			if set[o.PubHex] {
+				known = true
+			}
+		}
+		if !known {
+			if _, ok := n.Core.Hg().Store.RepertoireByPubKey()[o.PubHex]; !ok {
+				continue
+			}
+		}
+		nb := &hg.Block{Body: blk.Body}
+		sig, err := nb.Sign(o.Key)
+		if err != nil {
+			continue
+		}
+		nw.Res.count("valid_block_signatures_by_non_members_of_the_round_offered", 1)
+		if known {
+			nw.Res.count("valid_block_signatures_by_former_or_future_validators_offered", 1)
+		}
+		n.Node.VerifLockCore(func() {
+			n.Core.Hg().PendingSignatures.Add(sig)
+			n.Core.ProcessSigPool()
+			n.Core.Hg().PendingSignatures.Remove(sig.Key())
+		})
+		after, err := st.GetBlock(d.Index)
+		if err != nil {
+			continue
+		}
+		if _, rec := after.Signatures[o.PubHex]; rec {
+			nw.violate(m.Prop, m.Prop+":block-signature-recorded-for-non-member-of-round",
+				fmt.Sprintf("node %d recorded on block %d (round-received %d) a signature of node %d's key, which is not in the validator set that replaying the node's blocks gives for that round", n.Idx, d.Index, d.Body.RoundReceived, o.Idx),
+				map[string]interface{}{"node": n.Idx, "block": describeDelivered(d), "signer": o.Idx, "members": setKeys(members), "effective_rounds": s.rounds})
+			return true
+		}
+	}
+	return false
 }
